@@ -131,3 +131,110 @@ func TestC05ReadTimeout(t *testing.T) {
 	}
 	timeoutProp.Check(t, 60, 2000)
 }
+
+// ---------------------------------------------------------------------------
+// An active peer under a read timeout: its segments never end on a message boundary, so the
+// connection's read buffer is never empty between two messages; no single message takes
+// anywhere near ReadTimeout to arrive, but the whole stream takes longer than ReadTimeout.
+// Every message must reach the handler and the connection must stay open until the peer closes.
+
+type ACase struct {
+	Messages int `json:"messages"` // 6..10
+	Shift    int `json:"shift"`    // how far (bytes) every segment boundary is moved into the next message
+	GapMs    int `json:"gap_ms"`   // pause between segments
+}
+
+const activeReadTimeout = 300 * time.Millisecond
+
+func runActiveOnce(c ACase) *ev.Failure {
+	var all []byte
+	var sent [][]byte
+	var ends []int
+	for i := 0; i < c.Messages; i++ {
+		m := message(i, 24+i%3*4)
+		sent = append(sent, m)
+		all = append(all, m...)
+		ends = append(ends, len(all))
+	}
+	mc := memnet.NewConn()
+	lis := memnet.NewListener(2)
+	got := make(chan *diam.Message, len(sent)+8)
+	mux := diam.NewServeMux()
+	mux.HandleFunc("ALL", func(_ diam.Conn, m *diam.Message) { got <- m })
+	stop := make(chan struct{})
+	defer close(stop)
+	go func() {
+		for {
+			select {
+			case <-mux.ErrorReports():
+			case <-stop:
+				return
+			}
+		}
+	}()
+	srv := &diam.Server{Handler: mux, Dict: dict.Default, ReadTimeout: activeReadTimeout}
+	go srv.Serve(lis)
+	defer lis.Close()
+	lis.Push(mc)
+	off := 0
+	for i := range ends {
+		cut := ends[i] + c.Shift // inside the next message
+		if i == len(ends)-1 || cut >= len(all) {
+			cut = len(all)
+		}
+		if closed, _ := mc.Closed(); closed {
+			return ev.Failf("active-peer-closed", "the server closed the connection of a peer that had been sending a segment every %d ms (ReadTimeout %v): %d of %d segments sent, %d messages handled", c.GapMs, activeReadTimeout, i, len(ends), len(got))
+		}
+		mc.Feed(all[off:cut])
+		off = cut
+		if off >= len(all) {
+			break
+		}
+		time.Sleep(time.Duration(c.GapMs) * time.Millisecond)
+	}
+	deadline := time.Now().Add(2 * time.Second)
+	for len(got) < len(sent) && time.Now().Before(deadline) {
+		if closed, _ := mc.Closed(); closed {
+			break
+		}
+		time.Sleep(time.Millisecond)
+	}
+	n := len(got)
+	closed, _ := mc.Closed()
+	mc.FeedEOF()
+	mc.WaitClosed(5 * time.Second)
+	mc.Close()
+	if n != len(sent) || closed {
+		return ev.Failf("active-peer-closed", "a peer sent %d messages in segments that end %d bytes into the next message, one every %d ms (ReadTimeout %v, %d ms in all): %d reached the handler, connection closed by the server: %v", len(sent), c.Shift, c.GapMs, activeReadTimeout, c.GapMs*(len(sent)-1), n, closed)
+	}
+	close(got)
+	i := 0
+	for m := range got {
+		if b, _ := m.Serialize(); !bytes.Equal(b, sent[i]) {
+			return ev.Failf("message-differs", "active peer under a read timeout: message %d differs from what was sent", i)
+		}
+		i++
+	}
+	return nil
+}
+
+var activeProp = ev.Register(&ev.Prop[ACase]{
+	ID: "C05", Name: "active-peer-under-read-timeout",
+	Rule: "a Server with ReadTimeout 300 ms; a peer sends 6..10 messages in segments whose ends lie 1..30 bytes inside the next message, one segment every 50..70 ms (the stream takes longer than ReadTimeout, no message takes longer than 2 gaps); every message must reach the handler unchanged and the server must not close the connection; a failure must reproduce 3 times (wall-clock); every case non-trivial",
+	Gen: func(t *rapid.T) ACase {
+		return ACase{Messages: rapid.IntRange(6, 10).Draw(t, "messages"), Shift: rapid.SampledFrom([]int{1, 5, 19, 20, 21, 30}).Draw(t, "shift"), GapMs: rapid.IntRange(50, 70).Draw(t, "gap-ms")}
+	},
+	Run: func(c ACase) *ev.Failure {
+		f := runActiveOnce(c)
+		for i := 0; f != nil && i < 2; i++ {
+			if runActiveOnce(c) == nil {
+				return nil
+			}
+		}
+		return f
+	},
+	Classify: func(c ACase) (bool, []string) { return true, nil },
+	Attempts: 1,
+})
+
+func TestC05ActivePeerUnderReadTimeout(t *testing.T) { activeProp.Check(t, 5, 160) }
